@@ -14,7 +14,15 @@ THEOREMS = [P + t for t in (
     'specAppend_shift_neg', 'specAppend_shift_pos', 'specAppend_empty',
     'readspecX_plain', 'readspec_znum_transfer', 'readspec_znum_row', 'readspec_row_i_znum', 'loglam_rows_znum',
     'readspec_tables_znum', 'numberOfFibers_single', 'normalizeAll_single', 'normalizeAll_distinct',
-    'readspec_all_fibers_requests', 'readspec_all_fibers', 'all_fibers_layout', 'readspec_all_fibers_plates')]
+    'readspec_all_fibers_requests', 'readspec_all_fibers', 'all_fibers_layout', 'readspec_all_fibers_plates',
+    # extension 2: file-system lookup inside the model (names, glob, regular expression, latest_mjd over a listing),
+    # number_of_fibers for vectors, index wrap stated exactly, error theorems, readspec over directory listings
+    'fmtD_injective', 'specFileName_injective', 'specFile_injective', 'specPath_injective', 'globMatch_specFileName',
+    'reSearch_specFile', 'latestMjd_spec', 'latestMjdFS_eq_latestMjd', 'latestMjdFS_spec', 'latestMjdFS_ignores_unmatched',
+    'numberOfFibers_vec', 'rowIndex_cases', 'zIndex_cases', 'readspec_fiber_wrap', 'readspec_missing_file_raises',
+    'finish_short_table_raises', 'readspecFS_eq_readspec', 'readspec_row_i_listing', 'readspec_latest_listing',
+    'readspec_all_fibers_unfilled_raises', 'readspec_all_fibers_dup_raises', 'latestMjdFS_malformed_raises',
+    'readspec_mixed_tables_raise', 'readspecFS_vec', 'readspec_tables_loglam_listing')]
 RULE = ('synthetic survey trees written with astropy.io.fits (4 trees per run: complete / spPlate only / mixed spZbest+spZall / '
         '640-fibre plates before MJD 55025; 3-9 plate-MJD files each, repeated plates with different MJD, pixel counts and fibre '
         'counts differing, every cell encoding (file, fibre, pixel, hdu); spZall with 2-4 fits per fibre; platelist.fits with the '
@@ -25,14 +33,23 @@ RULE = ('synthetic survey trees written with astropy.io.fits (4 trees per run: c
         'plate without files, N_TOTAL beyond the file); error requests (length mismatch, missing file, fibre outside the plate, '
         'fibre <= 0); align= (oracle only); spec_append on random shapes and dtypes and on ALL pairs of blocks up to 2x2 (quick) / '
         '3 rows x 4 pixels (thorough) incl. 0 rows / 0 pixels with shifts -3..3 / -4..4. '
+        'Extension 2: a fifth tree whose plate numbers contain one another\'s digits (266 / 2660 / 1266 / 10266 ...) with at least one '
+        'plate >= 10000; spec_path on plates of 1-6 digits with path= / topdir (with and without trailing slash); latest_mjd on generated '
+        'directories (empty files, decoy plates, files of other kinds, a sub-directory, 12 % with a malformed spPlate name, one directory '
+        'or one directory per plate), the model being fed os.listdir; readspec(path=) against the model that forms, globs and opens the '
+        'file names itself on os.listdir(tree). '
         'A request is non-trivial when it reaches the grouping / reorder code; distinct = distinct (tree, request) payloads')
-TRUSTED = ['hand-written model lean/PydlVerif/Model/SpecOrder.lean tied to the code by the I/O correspondence of this run',
+TRUSTED = ['hand-written model lean/PydlVerif/Model/SpecOrder.lean + Model/SpecFiles.lean tied to the code by the I/O correspondence of this run',
+           'glob.glob / re / os.path.join / str.format of CPython (modelled by globMatch / reSearch / pathJoin / fmtD; the directory listing '
+           'the model works on is os.listdir of the directory the real code globs)',
            'astropy.io.fits (writes the synthetic files and reads them inside readspec)',
            'np.argsort returns a sorting permutation (contract IsArgsort, proved for the stand-in used by the driver)',
            'np.unique returns the sorted distinct values (modelled by insertion into a sorted list)']
 ASSUMPTIONS = ['every requested plate-MJD has an spPlate file whose 7 HDUs have NAXIS1 pixels and the same number of rows; '
                'spZbest (with znum=: spZall) and photoPlate exist for all requested plate-MJDs or for none',
-               '1 <= fibre <= number of rows of the plate; 0 <= plate < 10000; 10000 <= MJD < 65536 (mjd < 2^16 is what the key needs)',
+               '1 <= fibre <= number of rows of the plate; plate >= 0 of any number of digits (>= 10000 included since extension 2); '
+               'MJD < 65536 (mjd < 2^16 is what the key needs); file-name theorems: MJD < 100000 (5 digits), the directory name contains '
+               'no \'P\' (no earlier match of the regular expression inside the directory part), no glob metacharacters, no trailing slash',
                'znum=k: spZall has nfib*DIMS0 rows (fibre-major) and 1 <= k <= DIMS0',
                'fiber=None: the plates are distinct (theorem readspec_all_fibers: one plate; readspec_all_fibers_plates: any number), '
                'plate vectors are numpy arrays (number_of_fibers needs .shape), number_of_fibers finds a count 1 <= n <= rows of the file '
@@ -899,24 +916,34 @@ def _append_stream(ctx, cases=None):
 # ---------------------------------------------------------------- the check
 def _trees(ctx):
     th = ctx.tier == 'thorough'
-    return [Tree(ctx, gen_tree_spec(ctx.rng, kind, th), '%s%d' % (kind, k))
-            for k, kind in enumerate(['full', 'bare', 'mixed', 'sdss'] + (['full', 'bare', 'full', 'sdss', 'mixed'] if th else []))]
+    out = [Tree(ctx, gen_tree_spec(ctx.rng, kind, th), '%s%d' % (kind, k))
+           for k, kind in enumerate(['full', 'bare', 'mixed', 'sdss'] + (['full', 'bare', 'full', 'sdss', 'mixed'] if th else []))]
+    # extension: plate numbers that contain one another's digits (266 / 2660 / 1266 / 10266), at least one plate >= 10000
+    from harness.props import c16_fs
+    out += [Tree(ctx, c16_fs.gen_decoy_spec(ctx.rng), 'decoy%d' % k) for k in range(2 if th else 1)]
+    return out
 
 
 def run(ctx):
     ok = core.audit(ctx, LEAN_MODULES, THEOREMS)
     _append_stream(ctx)
+    from harness.props import c16_fs
+    c16_fs.names_stream(ctx)
+    c16_fs.latest_fs_stream(ctx)
     trees = _trees(ctx)
     for t in trees:
         ctx.count('tree:%s:files=%d' % (t.spec['kind'], len(t.keys)))
         _latest_stream(ctx, t)
         kind = t.spec['kind']
-        n = {'full': ctx.n(220, 900), 'bare': ctx.n(160, 700), 'mixed': ctx.n(80, 300), 'sdss': ctx.n(40, 200)}[kind]
+        n = {'full': ctx.n(220, 900), 'bare': ctx.n(160, 700), 'mixed': ctx.n(80, 300), 'sdss': ctx.n(40, 200),
+             'decoy': ctx.n(60, 300)}[kind]
         _readspec_stream(ctx, t, _directed(t) + gen_requests(ctx, t, n))
         _readspec_stream(ctx, t, _znum_requests(ctx, t, {'full': ctx.n(60, 250), 'mixed': ctx.n(20, 80)}.get(kind, ctx.n(10, 40))))
         _readspec_stream(ctx, t, gen_all_requests(ctx, t, {'full': ctx.n(40, 200), 'sdss': ctx.n(12, 60)}.get(kind, ctx.n(20, 80))))
         if kind in ('full', 'bare'):
             _align_stream(ctx, t, ctx.n(30, 150))
+        # the same real calls against the model that works on the directory LISTING (file names formed / globbed in the model)
+        c16_fs.readspec_fs_stream(ctx, t, {'sdss': ctx.n(8, 40), 'decoy': ctx.n(40, 200)}.get(kind, ctx.n(25, 120)))
     if not ok or ctx.disagreements:
         # directed failing-input search on the real code: more oracle-only requests on every tree
         for t in trees:
@@ -934,6 +961,10 @@ def replay(ctx, case):
     elif s == 'readspec':
         t = Tree(ctx, case['tree'], 'replay')
         _readspec_stream(ctx, t, [(case.get('conv', 'replay'), case['req'])], oracle_only=bool(case.get('oracle_only')))
+    elif s == 'readspecfs':
+        from harness.props import c16_fs
+        t = Tree(ctx, case['tree'], 'replay')
+        c16_fs.readspec_fs_stream(ctx, t, 20)
     elif s == 'align':
         run(ctx)
     elif s == 'latest':
@@ -953,15 +984,30 @@ LEVEL_TEXT = ('Machine-checked Lean 4 theorems over an executable model of reads
               'shift), zeros elsewhere, empty blocks included - proved by induction for arbitrary lengths and for any sorting '
               'permutation argsort may return. The model is tied to the code on every run by I/O correspondence on generated FITS '
               'survey trees (every convention above is compared with the model, not only judged by the oracle) and an independent '
-              'oracle that compares every returned cell with the arrays that were written.')
+              'oracle that compares every returned cell with the arrays that were written. Since extension 2 the file-system lookup is '
+              'inside the model and under theorems: spPlate file names / paths / plate directories are injective in (plate, MJD) for all '
+              'naturals (plates >= 10000 too), the glob of a plate never picks another plate\'s file (266 / 2660 / 1266 / 10266), '
+              'latest_mjd over a directory listing (glob + regular expression + int) returns the maximum MJD among that plate\'s names, '
+              'which is the MJD of a listed file, and raises on a globbed name without MJD; number_of_fibers for plate vectors; and the '
+              'row theorem is stated end to end over directory listings (readspec_row_i_listing: row i comes from the file NAMED '
+              'spPlate-pppp-mmmmm.fits of request i). Error theorems: a request without file, mixed availability of spZbest / photoPlate '
+              '(short table at the reorder step), fiber=None with a repeated plate all raise (nothing returned); the numpy index wrap for fibre <= 0 / znum '
+              'outside 1..nper is stated exactly (which row).')
 LEVEL_NOTE = ('Trusted: Lean kernel, axioms propext/Classical.choice/Quot.sound at most, the hand-written model (validated only by the '
               'correspondence sample), astropy.io.fits, the argsort / unique contracts. Outside the statement: align= (unfinished code: '
               'the shift reaches spec_append as a float, so any real alignment raises TypeError, a single request raises IndexError; '
-              'not modelled, oracle-only stream: whatever is returned must still be the requested rows); modelled and compared but not '
-              'covered by a theorem: mixed availability of spZbest/spZall/photoPlate (readspec raises at the reorder step), fibre <= 0 and '
-              'znum outside 1..nper (numpy index wrap), fiber=None with repeated plates or an MJD vector (raises), plates >= 10000. '
-              'fiber=None: readspec_all_fibers states the rows outright for one plate; for several distinct plates '
-              'readspec_all_fibers_plates proves the request vector, its layout and the Domain hypothesis of the row theorems. That readspec leaves the caller\'s request arrays '
-              'unmodified (idempotent arguments) is an aliasing fact outside a pure model: checked by the harness only (second call '
-              'with the same arrays). File-system lookup (glob, file names, platelist.fits columns) is modelled as functions / lists '
-              'and checked by correspondence only.')
+              'not modelled, oracle-only stream: whatever is returned must still be the requested rows). Also outside the statement, but now '
+              'pinned down by theorems: fibre <= 0 (readspec_fiber_wrap: fibre x with -nfib < x <= 0 returns the rows of fibre x+nfib; not a '
+              '"requested spectrum") and znum outside 1..nper (zIndex_cases: e.g. znum = nper+1 reads fit 1 of the next fibre). Error '
+              'behaviour under theorems: missing spPlate file, fiber=None with repeated plates, malformed spPlate name, short table at the '
+              'reorder step. Mixed availability of spZbest / photoPlate among the requested plate-MJDs raises for every request '
+              'vector and any argsort (readspec_mixed_tables_raise, the whole loop; znum unset). Modelled and compared but NOT covered by a '
+              'theorem: mixed availability of spZall with znum= (same mechanism, stepX not re-proved), fiber=None with an MJD vector '
+              '(raises), error paths of normalize. fiber=None: readspec_all_fibers states the rows outright for one plate; for '
+              'several distinct plates readspec_all_fibers_plates proves the request vector, its layout and the Domain hypothesis of the row '
+              'theorems. That readspec leaves the caller\'s request arrays unmodified (idempotent arguments) is an aliasing fact outside a pure '
+              'model: checked by the harness only (second call with the same arrays). File-system lookup: names, glob, regular expression, '
+              'latest_mjd and the existence test "name is in the listing" are in the model and under theorems (hypotheses: no \'P\' in the '
+              'directory name, 5-digit MJD); still parameters / correspondence only: the choice of $SPECTRO_REDUX vs $BOSS_SPECTRO_REDUX by '
+              'int(run2d) (topdir is an input), the names of the spZbest / spZall / photoPlate files (their presence is a field of the file '
+              'record), platelist.fits column access (a list of rows).')
